@@ -753,6 +753,10 @@ def name_return(sig, retname):
     """`-> T` becomes `-> (r: T)` so that ensures clauses can name the result."""
     m = re.search(r'->\s*', sig)
     if not m:
+        # Verus quirk (0.2026.09.13): an `async fn` without a declared return value loses its ensures at call sites;
+        # `-> ()` is the same signature
+        if re.search(r'\basync\s+fn\b', sig):
+            return sig.rstrip() + ' -> (%s: ())' % retname
         return sig
     # return type runs until `where` or end of signature
     tail = sig[m.end():]
